@@ -57,7 +57,39 @@ def shards(tier, seed):
         out += T.shard_list(3, 3, 3, 'c04roles', extra={'sub': 'modelroles', 'bounds': ''})
         out += T.shard_list(4, 5, 4, 'narrow', pin=3, extra={'sub': 'narrow', 'bounds': 'TREE(4,5,4) narrow alphabet'})
         out += T.shard_list(3, 3, 3, 'c04text', extra={'sub': 'text', 'bounds': 'TREE(3,3,3) with non-ASCII separators / VT / FF / FS inside symbols, roles and strings, decoded from text'})
+    out += T.shard_list(2, 2, 2, 'c04roles', extra={'sub': 'entry', 'bounds': 'TREE(2,2,2) model-specific roles x 8 public decoding entry points (decode, codec, loads, iterdecode x2, load from a stream / an open file / a file name)'})
     return out
+
+
+def _entry_points(text, pm, files):
+    import io
+    import os
+    import tempfile
+    import penman
+    from penman.codec import PENMANCodec
+    yield 'decode', [penman.decode(text, model=pm)]
+    yield 'PENMANCodec(model).decode', [PENMANCodec(model=pm).decode(text)]
+    yield 'loads', penman.loads(text, model=pm)
+    yield 'iterdecode(str)', list(penman.iterdecode(text, model=pm))
+    yield 'iterdecode(lines)', list(penman.iterdecode(text.split('\n'), model=pm))
+    yield 'load(stream)', penman.load(io.StringIO(text), model=pm)
+    if not files:
+        return
+    d = os.path.join(tempfile.gettempdir(), f'pmc_c04_{os.getppid()}')     # one directory per run, removed by teardown()
+    os.makedirs(d, exist_ok=True)
+    path = os.path.join(d, f'g{os.getpid()}.txt')
+    with open(path, 'w', encoding='utf-8') as fh:
+        fh.write(text)
+    yield 'load(file name)', penman.load(path, model=pm)
+    with open(path, encoding='utf-8') as fh:
+        yield 'load(open file)', penman.load(fh, model=pm)
+
+
+def teardown():
+    import os
+    import shutil
+    import tempfile
+    shutil.rmtree(os.path.join(tempfile.gettempdir(), f'pmc_c04_{os.getpid()}'), ignore_errors=True)
 
 
 def cases(shard):
@@ -73,6 +105,20 @@ def check(case, ctx):
     for name in MODELS:
         pm, rm = M.get(name)
         want = RI.interpret(t, rm)
+        if ctx.sub == 'entry':
+            import penman
+            text = penman.format(Tree(t), indent=(None, -1)[len(t[1]) % 2])
+            try:
+                for what, gs in _entry_points(text, pm, name in ('AMR', 'MINI')):
+                    ctx.transitions += 1
+                    if len(gs) != 1 or list(gs[0].triples) != want['triples'] or gs[0].top != want['top']:
+                        ctx.fail(f'{what}: triples differ from the documented reading under {name}', expected=want['triples'], observed=[list(x.triples) for x in gs])
+                        return
+            except Exception as e:      # noqa: BLE001
+                ctx.fail(f'a decoding entry point raised {type(e).__name__} under {name}', observed=str(e)[:200], expected=want['triples'])
+                return
+            ctx.validated += 1
+            continue
         try:
             if ctx.sub == 'text':
                 # end to end: the text is decoded; the tree is only the generator of the text
